@@ -581,6 +581,49 @@ func runC17(c *Ctx) {
 			"a repeated field used as a path variable is an error", "no error edge for a repeated field used as a path variable")
 	}
 
+	// (viii) (defect D53) a path variable must name a field a URL segment can be assigned to: the
+	// same predicate that setParameter/getParameter use at request time (`isParameterType`: scalars
+	// and well-known types with a scalar JSON form; not maps, not other messages) is applied to
+	// the variable's leaf field at registration, and its false outcome leads only to error returns
+	{
+		okParam := false
+		isParam := p.MustFunc("isParameterType")
+		for _, mfn := range SortedFuncs(p.Reach(makeTarget)) {
+			if !p.inScope(mfn) || FuncName(mfn) == "resolvePathToFieldDescriptors" {
+				continue
+			}
+			ei := errorResultIndex(mfn.Signature)
+			if ei < 0 {
+				continue
+			}
+			for _, call := range Calls(mfn) {
+				cv, ok := call.(*ssa.Call)
+				if !ok || cv.Call.StaticCallee() != isParam {
+					continue
+				}
+				for _, ref := range *cv.Referrers() {
+					if iff, ok := ref.(*ssa.If); ok {
+						// `if !isParameterType(f) { return error }` : the condition is the call itself, false edge = Succs[1]
+						if good, _ := succReturnsOnlyErrors(mfn, iff.Block().Succs[1], ei); good {
+							okParam = true
+						}
+					}
+					if un, ok := ref.(*ssa.UnOp); ok && un.Op == token.NOT {
+						for _, r2 := range *un.Referrers() {
+							if iff, ok := r2.(*ssa.If); ok {
+								if good, _ := succReturnsOnlyErrors(mfn, iff.Block().Succs[0], ei); good {
+									okParam = true
+								}
+							}
+						}
+					}
+				}
+			}
+		}
+		c.Check(okParam, "C17.2", FuncName(makeTarget), "non-parameter-variable-rejected", makeTarget.Pos(),
+			"a path variable whose leaf field is not a parameter type (map, plain message) is an error", "no error edge for a path variable that names a map or message field: NewTranscoder accepts a binding that can never be served (every request fails in setParameter, or the variable is silently dropped)")
+	}
+
 	// ---------------------------------------------------------------- C17.3
 	c.Rule("C17.3", "a rule binds a method only on an exact name match, or a prefix match under a wildcard selector", 1)
 	{
